@@ -56,9 +56,9 @@ type nOutcome struct {
 	// (capped by the step's length; 0 for a step that fired nothing or landed exactly).
 	Overshoot []time.Duration
 	InitErr   bool
-	Hang     string
-	Panic    string
-	RunRet   string
+	Hang      string
+	Panic     string
+	RunRet    string
 }
 
 func readPub(target, when string, reqs []reqRec) pubObs {
